@@ -42,9 +42,10 @@ def p_space():
 
 VALUES = [0, 1, -1, 2, True, False, 1.0, 1.0005, 1.002, 0.9995, 'a', 'A', 'abc', 'a!', 'Hello, World', 'hello world',
           '', [], [1], [1, 2], [2, 1], (1, 2), (), {'a': 1}, {}, {1, 2}, None, [1.0005], [[1], [2]], (1, 'a'),
-          {1.0005}, {'Hello, World'}, 3, {1}, {'hello world'}, {'k': {1.0005}}, {'k': {1}}]
+          {1.0005}, {'Hello, World'}, 3, {1}, {'hello world'}, {'k': {1.0005}}, {'k': {1}},
+          b'ab', b'AB', frozenset({1, 2}), frozenset({1.0005}), frozenset({1}), 1 + 2j]
 CORE = [0, 1, 2, True, 1.0, 1.0005, 1.002, 'a', 'A', 'a!', 'abc', [1], [1, 2], (1, 2), {'a': 1}, {1, 2}, None, [1.0005], {1.0005},
-        {1}, {'Hello, World'}, {'hello world'}]
+        {1}, {'Hello, World'}, {'hello world'}, b'ab', b'AB', frozenset({1.0005}), frozenset({1})]
 SPECIAL = ['<error>', '<opaque>']
 DELTA = .001
 
@@ -137,6 +138,8 @@ def ref_equal(a, b):
         if sorted(c for c in a.lower() if c.isalnum()) != sorted(c for c in b.lower() if c.isalnum()):
             return False
         return None
+    if isinstance(a, bytes) and isinstance(b, bytes):
+        return a == b
     if a is None or b is None:
         return a is b
     for kind in (list, tuple):
@@ -155,6 +158,8 @@ def ref_equal(a, b):
             return False
         return True if all(r is True for r in rs) else None
     if isinstance(a, (set, frozenset)) and isinstance(b, (set, frozenset)):
+        if type(a) is not type(b):
+            return None        # set against frozenset: the statement does not say whether these are the same kind
         if len(a) != len(b):
             return False
         la, lb = list(a), list(b)
@@ -169,7 +174,7 @@ def ref_equal(a, b):
             if all(r is not False for r in rs):
                 best = None
         return best
-    kinds = (str, list, tuple, dict, set, frozenset, int, float)
+    kinds = (str, bytes, list, tuple, dict, set, frozenset, int, float, complex)
     ka = [k for k in kinds if isinstance(a, k)]
     kb = [k for k in kinds if isinstance(b, k)]
     if ka and kb and ka[0] is not kb[0] and not (_is_num(a) and _is_num(b)):
